@@ -20,3 +20,7 @@ __CPROVER_assigns(*lat, *lon, *h; M != (double *)0: __CPROVER_object_upto(M, 9 *
 __CPROVER_ensures(isnan(*lon) || (-180.0 <= *lon && *lon <= 180.0))
 /*@ clause post.lat_range src=property props=C07 */
 __CPROVER_ensures(isnan(*lat) || (-90.0 <= *lat && *lat <= 90.0))
+/* Not stated: "a finite input gives numbers, not NaN".  Tried: with the range-only models of sqrt/cbrt/hypot and an arbitrary admissible
+   ellipsoid (f down to -1e308) the verifier produces NaNs from overflow in e2 = f(2-f); excluding those needs accuracy facts about cbrt and
+   sqrt ("uv is positive") that the libm models do not provide.  The seeded change C07-intreverse-singular-rim (0/0 on the rim of the singular
+   disc) is therefore NOT detected: see DESIGN.md. */
